@@ -145,7 +145,7 @@ func v14MakeTime(y, mo, d, h, mi, s, ns int, zoneSec int) v14Time {
 var v14Times = []v14Time{
 	v14MakeTime(1971, 1, 1, 0, 0, 0, 1, 0),
 	v14MakeTime(2026, 9, 28, 12, 34, 56, 789012345, 7*3600),
-	v14MakeTime(2200, 2, 29+1, 23, 59, 59, 999999999, 0), // 2200 is not a leap year: 1 March 2200
+	v14MakeTime(2200, 3, 1, 23, 59, 59, 999999999, 0),
 }
 
 var v14F32 = []float32{0, math.SmallestNonzeroFloat32, 6.4e-7, 1, math.MaxFloat32, float32(math.Inf(1)), float32(math.NaN())}
@@ -310,14 +310,15 @@ func v14CheckSummary(x *vexp.X, rec *DataRecord, wantNs int64) vexp.Result {
 		return bad("c14-sum-nsamples", "bytes 8-11 decode to %d samples in record", m.nsamp)
 	}
 	for _, f := range []struct {
+		key  string
 		name string
 		off  int
 		got  float32
 		want float64
-	}{{"pretrigger mean", 12, m.ptMean, rec.pretrigMean}, {"peak value", 16, m.peak, rec.peakValue}, {"pulse RMS", 20, m.rms, rec.pulseRMS},
-		{"pulse average", 24, m.avg, rec.pulseAverage}, {"residual std dev", 28, m.resid, rec.residualStdDev}} {
+	}{{"pretrig-mean", "pretrigger mean", 12, m.ptMean, rec.pretrigMean}, {"peak", "peak value", 16, m.peak, rec.peakValue}, {"pulse-rms", "pulse RMS", 20, m.rms, rec.pulseRMS},
+		{"pulse-average", "pulse average", 24, m.avg, rec.pulseAverage}, {"residual", "residual std dev", 28, m.resid, rec.residualStdDev}} {
 		if !v14Same32(f.got, v14Narrow(f.want)) {
-			return bad("c14-sum-"+f.name, "bytes %d-%d decode to %s %v, the record holds %v", f.off, f.off+3, f.name, f.got, f.want)
+			return bad("c14-sum-"+f.key, "bytes %d-%d decode to %s %v, the record holds %v", f.off, f.off+3, f.name, f.got, f.want)
 		}
 	}
 	if m.timeNs != wantNs {
